@@ -126,4 +126,28 @@ PROPS["C07"] = {
     "assumptions": ["acyclic definitions, no computed names (the property's own quantifier)"],
 }
 
+TREE_TRUST = ["cobra/pflag argument handling, filepath.WalkDir/Glob and os.WriteFile are not modelled: the model works on the list of regular files in WalkDir order; the correspondence runs compare the changed files and the exit status of the binary with the model on generated trees",
+              "symbolic links, permissions and concurrent modification are outside; the snapshots cover the scratch directory (CRS root plus a sibling tree outside it)"]
+PROPS["C08"] = {
+    "suites": ["tree_all", "tree_frame"],
+    "trusted": GEN_TRUST + TREE_TRUST,
+    "level_text": "Kernel-checked theorems about Model/Cli.v and the assembler model for all trees, walks and per-file behaviours: a run does not read the package-level processor state an earlier run left; format --all leaves every selected file exactly as formatting it alone would and every other file untouched, for every order of the walk; update --all writes rules files only, so what generate reads for one assembly file is never changed by processing another. Tied by pins, by tree-level differential runs of update/format/renumber/copyright --all against the model (changed files byte for byte, exit status) and by the oracle: --all on one copy of a generated tree vs. every order of single invocations on other copies (whole-tree bytes; multiset of per-rule lines for compare).",
+    "level_note": "Trusted as C01/C15. The commutation of single-rule updates within one rules file is decided per generated tree (all orders, <= 6), not by a theorem: the line locator can be confused by regex text (see C11).",
+    "assumptions": ["every single invocation succeeds (a failing run ends the process)"],
+}
+PROPS["C15"] = {
+    "suites": ["tree_frame"],
+    "trusted": TREE_TRUST,
+    "level_text": "Kernel-checked frame theorems about Model/Cli.v for all trees, all walks and all per-file behaviours: update (single and --all) changes rules files only, format --all changes .ra files below regex-assembly only, format ARG changes only the resolved target, renumber-tests changes only files whose name matches the test-file pattern below tests/regression/tests and skips unchanged files, update-copyright changes *.conf/*.example only; no command creates or deletes a file; a write leaves every other file's bytes alone. 'format touches .ra files only' is refuted for the single-file argument by a model witness that replays on the binary (known finding). Tied by pins on the walks, filters and name patterns and by tree-level differential runs; the oracle snapshots the whole scratch directory (root + a sibling tree) before and after every command and flag combination and checks the property's target list directly.",
+    "level_note": "Trusted: Coq kernel, translator, extraction, harness. Inspecting commands (generate, compare, --check modes, version, completion) have no write in the model by construction; that the binary does not write either is decided by the snapshots.",
+    "assumptions": ["regular files only"],
+}
+PROPS["C16"] = {
+    "suites": ["tree_faults", "fuzz_generate"],
+    "trusted": GEN_TRUST + TREE_TRUST,
+    "level_text": "Kernel-checked theorems about Model/Cli.v: a failing single-rule update and a failing single-file format leave the tree identical; compare produces a verdict only when exactly one rules file matches (the zero-exit on a missing/ambiguous rules file was a genuine defect, repaired in /repo by fix: e2f7323); 'every target file byte-identical after a failure' is refuted for update --all by a model witness that replays on the binary (known finding). The error class of every modelled failure path of generate (join error, unknown processor, bad cmdline type, stack errors, unknown/missing stored name, unsupported flag, uneven pair list, flags in include, missing file) is part of the pipeline model and is compared with the binary on malformed inputs. Tied by pins and differential runs; the oracle injects one fault of every listed class at every position into generated trees and observes exit status, stdout and the whole-tree snapshot.",
+    "level_note": "Trusted as C01/C15. cobra's own argument errors and zerolog's Fatal/Panic exit mapping are taken from the libraries and validated by the runs.",
+    "assumptions": ["single faults"],
+}
+
 NOT_APPLICABLE = {}
